@@ -109,6 +109,19 @@ def run(ctx):
         has = need is None or any(c.name.endswith("::" + need) for g in group for c in g.calls)
         ctx.ob("L3.QUEUE-ORDER", fid.rsplit("::", 1)[-1], not bad and has, "FIFO preserved" if not bad and has else
                "queue order is not preserved (%s)" % (bad[0].name.rsplit("::", 1)[-1] if bad else "no %s" % need), f.loc())
+    # L5: every captured frame of every queued commit is appended — no lossy adaptor between the payload and the log
+    LOSSY = ("filter", "filter_map", "skip", "skip_while", "take", "take_while", "step_by", "dedup", "dedup_by", "dedup_by_key", "retain",
+             "truncate", "chunks_exact", "rchunks_exact", "nth", "last", "first", "max_by_key", "min_by_key")
+    for fid in (T + "execute_group_wal_flush", T + "write_payload_to_wal"):
+        f = m.fn(fid)
+        group = [f] + list(common.all_closures(m, f))
+        lossy = [c for g in group for c in g.calls if c.name.rsplit("::", 1)[-1] in LOSSY and
+                 ("Iterator" in c.name or "iter::" in c.name or "slice" in c.name or "Vec" in c.name or "SmallVec" in c.name)]
+        apps = [c for g in group for c in g.calls if is_append(c)]
+        ctx.ob("L5.PAYLOAD-COMPLETE", fid.rsplit("::", 1)[-1], not lossy and bool(apps), "every queued frame is appended (%d append site(s))" % len(apps) if not lossy and apps else
+               "the payload passes through %s before it is appended: frames of a committed transaction are dropped from the log (a later commit's "
+               "image of a page is lost when an earlier one in the batch is kept)" % (lossy[0].name.rsplit("::", 1)[-1] if lossy else "no append"),
+               (lossy[0] if lossy else f).loc() if lossy else f.loc())
     # L4
     f = m.fn(T + "execute_group_wal_flush")
     apps = [c for c in f.calls if is_append(c)]
